@@ -7,7 +7,7 @@ cp -f evidence/$prop.json /tmp/evidence_$prop.bak 2>/dev/null
 git -C /repo apply "$sd/patch.diff" 2>/dev/null || git -C /repo apply --3way "$sd/patch.diff" || { git -C /repo reset -q --hard; exit 2; }
 if [ -n "$only" ]; then ./check $prop --tier $tier --only "$only" > $sd/check.out 2> $sd/check.err; else ./check $prop --tier $tier > $sd/check.out 2> $sd/check.err; fi
 rc=$?
-git -C /repo reset -q --hard
+git -C /repo reset -q --hard; make -C /repo/hwloc -j16 >/dev/null 2>&1
 cp -f evidence/$prop.json $sd/evidence.with_patch.json 2>/dev/null; cp -f /tmp/evidence_$prop.bak evidence/$prop.json 2>/dev/null
 echo "== $(basename $sd): exit $rc"; grep "VIOLATION\|PROOF-LOST\|UNDECIDED\|KNOWN" $sd/check.out | cut -c1-250; tail -1 $sd/check.out
 grep "^  [a-z_0-9]*: " $sd/check.err | cut -c1-300 | head -5
